@@ -130,7 +130,9 @@ func execGreedy(g *graph.DGraph, params graph.Params) {
 
 	// reverse edges that point right
 	for _, n := range g.Nodes {
-		for _, e := range n.Out {
+		// iterate on a copy: Reverse removes e from n.Out, and removing from the slice
+		// being ranged over would skip the edge that follows every reversed one
+		for _, e := range slices.Clone(n.Out) {
 			if p.arcdiag[n] > p.arcdiag[e.To] {
 				e.Reverse()
 			}
